@@ -46,14 +46,25 @@ class Atom:
         if k == 'helper':
             fn, args = self.arg
             return getattr(AF, fn)(*args)
-        if k == 'aset':
-            return AS(self.arg)
-        if k == 'asetl':
-            return AS(list(self.arg))
+        if k in ('aset', 'asetl'):
+            # argument objects owned by the harness may be reused across steps on purpose (the library
+            # must copy what it keeps): one object per atom and run when REUSE is on
+            if REUSE['on'] and self.id in REUSE['objs']:
+                return REUSE['objs'][self.id]
+            obj = AS(self.arg) if k == 'aset' else AS(list(self.arg))
+            if REUSE['on']:
+                REUSE['objs'][self.id] = obj
+            return obj
         raise AssertionError(k)
 
 
 CATALOGUE = {}
+REUSE = {'on': False, 'objs': {}}
+
+
+def reset_reuse(on):
+    REUSE['on'] = bool(on)
+    REUSE['objs'] = {}
 
 
 def _add(*a, **kw):
